@@ -57,6 +57,7 @@ fn with_world<R>(name: &str, cfg: Config, f: impl FnOnce(&mut dyn World) -> R) -
         "Mpod" => go!(MapWorld::<PodKey, u32>::new(cfg)),
         "M208" => go!(MapWorld::<Key8, Big200>::new(cfg)),
         "M64a" => go!(MapWorld::<Key8, Align64>::new(cfg)),
+        "M128a" => go!(MapWorld::<Key8, crate::elem::Align128>::new(cfg)),
         "Mz" => go!(MapWorld::<Key8, ()>::new(cfg)),
         "Ms" => go!(MapWorld::<crate::elem::KeyS, Val8>::new(cfg)),
         "M5" => go!(MapWorld::<KeyU8, P4>::new(cfg)),
